@@ -146,6 +146,11 @@ def main(check):
     # proofs
     try:
         audit = core.audit(prop, check.required_theorems)
+        ties = core.shared_ties(prop)   # generated tables shared by several properties (gen/enums.py) + their tie theorems
+        audit["theorems"] = audit.get("theorems", []) + ties["theorems"]
+        audit["axioms"].update(ties["axioms"])
+        audit["obligations"] = audit.get("obligations", 0) + len(ties["theorems"])
+        audit["discharged"] = audit.get("discharged", 0) + len(ties["theorems"])
         if args.tier == "thorough" and getattr(check, "use_leanchecker", True):
             rc, out = core.leanchecker(prop)
             audit["leanchecker_rc"] = rc
@@ -209,7 +214,10 @@ def main(check):
         "discharged": audit.get("discharged", 0),
         "checker_cmd": f"cd lean && lake build IcingaProofs.{prop} && lake env lean <#print axioms for every theorem of IcingaProofs/{prop}.lean>"
                        + (f" && lake env leanchecker IcingaProofs.{prop}" if args.tier == "thorough" else ""),
-        "trusted_base": core.TRUSTED_BASE_COMMON + check.trusted_base,
+        "trusted_base": core.TRUSTED_BASE_COMMON + check.trusted_base + (
+            ["translator gen/enums.py (shared): a probe program compiled against /repo's headers prints the enumerator values; "
+             "lean/IcingaProofs/Tie/" + ",".join(core.SHARED_TIES[prop]) + ".lean proves the model's encodings equal them"]
+            if prop in core.SHARED_TIES else []),
         "theorems": audit.get("theorems", []),
         "axioms": audit.get("axioms", {}),
         "evaluations": result.evaluations,
